@@ -14,6 +14,7 @@ ProcessHeader answers, any memory limit), every node configuration (verify-only,
 alternate header handler), every reachable state.
 -/
 import BRV.Proofs.NodeStep
+import BRV.Proofs.MgrLemmas
 
 namespace BRV.Wire
 open BRV BRV.Node
@@ -332,46 +333,6 @@ theorem C13_verify_only_disconnects (e : Env) (s : State) (inp : Bytes) (hI : In
               simp only [List.mem_cons]
               exact Or.inr (Or.inr (hstop hvo))
 
-/-! ## NodeManager.nextNode -/
-
-theorem nextNodeLoop_ready (fuel : Nat) (nodes : List NodeView) (off : Nat) (looped : Bool) (nd : NodeView)
-    (h : (nextNodeLoop fuel nodes off looped).2.2 = some nd) :
-    nd.ready = true ∧ nd.stopped = false ∧ nd.busy = false ∧ nd.hasData = true := by
-  induction fuel generalizing nodes off looped with
-  | zero => simp [nextNodeLoop] at h
-  | succ fuel ih =>
-    unfold nextNodeLoop at h
-    split at h
-    · split at h
-      · simp at h
-      · exact ih _ _ _ h
-    · split at h
-      · simp at h
-      · rename_i nd' _
-        split at h
-        · exact ih _ _ _ h
-        · split at h
-          · exact ih _ _ _ h
-          · split at h
-            · exact ih _ _ _ h
-            · split at h
-              · exact ih _ _ _ h
-              · simp only [Option.some.injEq] at h
-                subst h
-                rename_i h1 h2 h3 h4
-                refine ⟨by simpa using h2, by simpa using h1, by simpa using h3, by simpa using h4⟩
-
-/-- **C13 (selection).** Whatever the list of managed nodes and the scan offset, `nextNode` only
-    returns a node that is ready (and not stopped, not busy, has the data). With
-    `C13_ready_implies_verified`: it only returns verified nodes. -/
-theorem C13_selected_implies_ready (nodes : List NodeView) (off : Nat) (nd : NodeView)
-    (h : (nextNode nodes off).2.2 = some nd) : nd.ready = true ∧ nd.stopped = false := by
-  unfold nextNode at h
-  split at h
-  · simp at h
-  · have := nextNodeLoop_ready _ _ _ _ _ h
-    exact ⟨this.1, this.2.1⟩
-
 /-! ## non-vacuity: concrete runs of the model -/
 
 namespace Example
@@ -414,9 +375,316 @@ example :
       (frame "version" versionP ++ frame "verack" [] ++ frame "headers" (headersP 8))).1
     = [.send "verack" 0, .send "protoconf" 0, .send "getheaders" 0, .verifyHeader 8, .stop] := by decide +kernel
 
-example : (nextNode [⟨false, false, false, true⟩, ⟨true, true, false, true⟩, ⟨false, true, false, true⟩] 0).2.2
-    = some ⟨false, true, false, true⟩ := by decide
-
 end Example
 
 end BRV.Wire
+
+/-! ## NodeManager: nextNode, RequestHeaders, RequestTxs, RequestBlock, SendTx (Model/Mgr.lean)
+
+The routing model is tied to node_manager.go by the `mgr` correspondence stream: a real
+`NodeManager` over real `BitcoinNode`s, each on its own connection to a scripted peer; the flags
+the harness read just before a routing call are an input of the replay (`Driver/MgrMain.lean` runs
+the very `scan` / loops the theorems below are about). Quantifiers: every list of node ids (with
+repetitions), every offset (also beyond the end of the list, as `Clean` can leave it), every view
+`Nat → Flags`, every data predicate, every tx-manager content.
+
+With `C13_ready_implies_verified` (above, connection model): a node whose `IsReady()` is true has
+completed the handshake and proven its chain, so "ready" below is "verified". -/
+
+namespace BRV.Mgr
+
+/-- **C13 (selection).** `nextNode` only returns a node that is ready, not stopped, not busy and
+    has the data; it is one of the managed nodes. In particular a stopped node is never selected. -/
+theorem C13_selected_implies_ready (fl : View) (has : HasData) (nodes : List Nat) (off : Nat) (id : Nat)
+    (h : (nextNode fl has nodes off).2.2 = some id) :
+    (fl id).ready = true ∧ (fl id).stopped = false ∧ (fl id).busy = false ∧ has id = true ∧ id ∈ nodes := by
+  have hs := nextNode_selected fl has nodes off id h
+  have hf := selectable_flags hs.1
+  exact ⟨hf.2.1, hf.1, hf.2.2.1, hf.2.2.2, hs.2.1⟩
+
+/-- **C13 (the scan terminates).** The fuel `nextNode` gives its loop is enough: with that much or
+    any larger amount the loop returns the same thing, so the model's "out of fuel" equation is
+    never the reason for a `none`. (Every iteration removes a node, advances the offset, or is the
+    one wrap: at most `2·len + 2` iterations.) -/
+theorem C13_nextNode_fuel_enough (fl : View) (has : HasData) (nodes : List Nat) (off : Nat) (fuel : Nat)
+    (hne : nodes ≠ []) (h : 2 * nodes.length + 2 ≤ fuel) :
+    scan fl has fuel nodes off false = nextNode fl has nodes off := by
+  unfold nextNode
+  have : ¬ nodes.length = 0 := by simpa using hne
+  rw [if_neg this]
+  exact scan_fuel_stable _ _ _ _ _ _ _ (Nat.le_trans (nextNode_measure nodes off) h) (nextNode_measure nodes off)
+
+/-- **C13 (first fit / round robin, part 1).** `nextNode` returns the first node that passes the
+    four tests at or after the offset, else the first one before the offset, else nothing. -/
+theorem C13_nextNode_first_fit (fl : View) (has : HasData) (nodes : List Nat) (off : Nat) :
+    (nextNode fl has nodes off).2.2 =
+      ((nodes.drop off).find? (selectable fl has)).or ((nodes.take off).find? (selectable fl has)) := by
+  unfold nextNode
+  split
+  · rename_i h
+    have : nodes = [] := List.length_eq_zero_iff.mp h
+    subst this
+    simp
+  · exact scan_find _ _ _ _ _ (nextNode_measure nodes off)
+
+/-- **C13 (fairness within one scan).** If any managed node is ready, idle, not stopped and has the
+    data, one call of `nextNode` finds a node (it never reports "No nodes available" then). -/
+theorem C13_available_node_is_found (fl : View) (has : HasData) (nodes : List Nat) (off : Nat) (id : Nat)
+    (hin : id ∈ nodes) (hsel : selectable fl has id = true) :
+    (nextNode fl has nodes off).2.2.isSome = true := by
+  rw [C13_nextNode_first_fit]
+  have hmem : id ∈ nodes.drop off ∨ id ∈ nodes.take off := by
+    rw [← List.take_append_drop off nodes] at hin
+    rcases List.mem_append.mp hin with h | h
+    · exact Or.inr h
+    · exact Or.inl h
+  cases hd : (nodes.drop off).find? (selectable fl has) with
+  | some x => simp
+  | none =>
+    cases ht : (nodes.take off).find? (selectable fl has) with
+    | some x => simp
+    | none =>
+      exfalso
+      rcases hmem with h | h
+      · have := List.find?_eq_none.mp hd id h; simp [hsel] at this
+      · have := List.find?_eq_none.mp ht id h; simp [hsel] at this
+
+/-- **C13 (round robin, part 2).** The selected node sits just before the new offset: the next
+    request's scan (first fit from the offset) starts behind it. -/
+theorem C13_offset_behind_selected (fl : View) (has : HasData) (nodes : List Nat) (off : Nat) (id : Nat)
+    (h : (nextNode fl has nodes off).2.2 = some id) :
+    0 < (nextNode fl has nodes off).2.1 ∧
+      (nextNode fl has nodes off).1[(nextNode fl has nodes off).2.1 - 1]? = some id := by
+  have key : ∀ fuel nodes off looped, (scan fl has fuel nodes off looped).2.2 = some id →
+      0 < (scan fl has fuel nodes off looped).2.1 ∧
+        (scan fl has fuel nodes off looped).1[(scan fl has fuel nodes off looped).2.1 - 1]? = some id := by
+    intro fuel
+    induction fuel with
+    | zero => intro nodes off looped h; simp [scan] at h
+    | succ fuel ih =>
+      intro nodes off looped h
+      by_cases h1 : off ≥ nodes.length
+      · rw [scan_wrap _ _ _ _ _ _ h1] at h ⊢
+        split at h
+        · simp at h
+        · rename_i h2; rw [if_neg h2]; exact ih _ _ _ h
+      · have hlt : off < nodes.length := by omega
+        rw [scan_step _ _ _ _ _ _ hlt] at h ⊢
+        split at h
+        · rename_i hs; rw [if_pos hs]; exact ih _ _ _ h
+        · rename_i hs
+          rw [if_neg hs]
+          split at h
+          · rename_i hsel
+            rw [if_pos hsel]
+            simp only [Option.some.injEq] at h
+            subst h
+            simp [hlt]
+          · rename_i hsel; rw [if_neg hsel]; exact ih _ _ _ h
+  unfold nextNode at h ⊢
+  split at h
+  · simp at h
+  · rename_i hn
+    rw [if_neg hn]
+    exact key _ _ _ _ h
+
+/-- **C13 (stopped nodes, step).** When the scan reaches a stopped node it removes it from
+    `m.nodes` and looks at the same offset again. -/
+theorem C13_stopped_removed_when_scanned (fl : View) (has : HasData) (fuel : Nat) (nodes : List Nat) (off : Nat)
+    (looped : Bool) (hlt : off < nodes.length) (hs : (fl nodes[off]).stopped = true) :
+    scan fl has (fuel + 1) nodes off looped = scan fl has fuel (nodes.eraseIdx off) off looped := by
+  rw [scan_step _ _ _ _ _ _ hlt, if_pos hs]
+
+/-- **C13 (stopped nodes, whole call).** `nextNode` keeps the order of `m.nodes`, removes only
+    stopped nodes, and a call that finds nothing has removed every stopped node. -/
+theorem C13_only_stopped_removed (fl : View) (has : HasData) (nodes : List Nat) (off : Nat) :
+    (nextNode fl has nodes off).1.Sublist nodes ∧
+    (∀ id ∈ nodes, id ∈ (nextNode fl has nodes off).1 ∨ (fl id).stopped = true) ∧
+    ((nextNode fl has nodes off).2.2 = none →
+      (nextNode fl has nodes off).1 = nodes.filter (fun id => !(fl id).stopped)) := by
+  refine ⟨nextNode_sublist _ _ _ _, fun id hin => nextNode_removed_stopped _ _ _ _ id hin, ?_⟩
+  unfold nextNode
+  split
+  · rename_i h
+    have : nodes = [] := List.length_eq_zero_iff.mp h
+    subst this
+    simp
+  · exact scan_none_filter _ _ _ _ _ (nextNode_measure nodes off)
+
+/-- **C13 (RequestHeaders).** Whatever the fuel of the retry loop: the node that is sent the
+    `getheaders` is ready, not stopped, idle, and one of the managed nodes. -/
+theorem C13_requestHeaders_targets_ready (fl : View) (locOk : Bool) (k : Nat) (nodes : List Nat) (off : Nat)
+    (id : Nat) (m : Msg) (h : (id, m) ∈ (reqHeadersLoop fl locOk k nodes off).sends) :
+    m = .getheaders ∧ (fl id).ready = true ∧ (fl id).stopped = false ∧ (fl id).busy = false ∧ id ∈ nodes := by
+  have := reqHeadersLoop_sends fl locOk k nodes off (id, m) h
+  have hf := selectable_flags this.2.1
+  exact ⟨this.1, hf.2.1, hf.1, hf.2.2.1, this.2.2.2⟩
+
+/-- **C13 (RequestTxs).** The node that is sent the `getdata` for transactions is ready, not stopped, idle. -/
+theorem C13_requestTxs_targets_ready (fl : View) (hasTx : Bool) (k : Nat) (nodes : List Nat) (off : Nat)
+    (pend : List TxEntry) (id : Nat) (m : Msg) (h : (id, m) ∈ (reqTxs fl hasTx k nodes off pend).r.sends) :
+    (fl id).ready = true ∧ (fl id).stopped = false ∧ (fl id).busy = false ∧ id ∈ nodes := by
+  unfold reqTxs at h
+  split at h
+  · simp at h
+  · have := reqTxsLoop_sends fl k nodes off pend (id, m) h
+    have hf := selectable_flags this.1
+    exact ⟨hf.2.1, hf.1, hf.2.2.1, this.2.2⟩
+
+/-- **C13 (RequestBlock).** The node that is sent the `getdata` for the block is ready, not
+    stopped, idle and `hasData` (i.e. `HasBlock(hash, height)`) held for it. -/
+theorem C13_requestBlock_targets_ready_with_block (fl : View) (has : HasData) (b : Nat) (height : Option Nat)
+    (nodes : List Nat) (off : Nat) (id : Nat) (m : Msg) (h : (id, m) ∈ (reqBlock fl has b height nodes off).sends) :
+    m = .getdataBlock b ∧ (fl id).ready = true ∧ (fl id).stopped = false ∧ (fl id).busy = false ∧
+      has id = true ∧ id ∈ nodes := by
+  unfold reqBlock at h
+  split at h
+  · simp at h
+  · have := reqBlockLoop_sends has b _ fl nodes off [] (id, m) h
+    have hf := selectable_flags this.2.1
+    exact ⟨this.1, hf.2.1, hf.1, hf.2.2.1, hf.2.2.2, this.2.2.2⟩
+
+/-- **C13 (SendTx).** Every node the transaction is broadcast to is ready, idle and not stopped. -/
+theorem C13_sendTx_targets_ready (fl : View) (nodes : List Nat) (id : Nat) (m : Msg)
+    (h : (id, m) ∈ sendTx fl nodes) :
+    m = .tx ∧ (fl id).ready = true ∧ (fl id).stopped = false ∧ (fl id).busy = false ∧ id ∈ nodes := by
+  unfold sendTx at h
+  rcases List.mem_map.mp h with ⟨x, hx, he⟩
+  simp only [Prod.mk.injEq] at he
+  rcases he with ⟨rfl, rfl⟩
+  rcases List.mem_filter.mp hx with ⟨hin, hc⟩
+  simp only [Bool.and_eq_true, Bool.not_eq_true', Bool.or_eq_false_iff] at hc
+  exact ⟨rfl, by simpa using hc.1.1.1, hc.1.2, hc.1.1.2, hin⟩
+
+/-- **C13 (RequestBlock terminates).** A retry (`ErrChannelClosed`) leaves the node stamped busy, so
+    the loop ends within `len + 1` rounds: with the fuel `reqBlock` gives, or any larger amount, the
+    result is the same and is never the model's "still spinning" outcome. -/
+theorem C13_requestBlock_terminates (fl : View) (has : HasData) (b : Nat) (nodes : List Nat) (off : Nat) (fuel : Nat)
+    (h : nodes.length + 1 ≤ fuel) :
+    reqBlockLoop has b fuel fl nodes off [] = reqBlockLoop has b (nodes.length + 1) fl nodes off [] ∧
+    (reqBlockLoop has b fuel fl nodes off []).err ≠ .spin := by
+  have hi := idleCount_le_length fl nodes
+  exact ⟨reqBlockLoop_fuel_stable _ _ _ _ _ _ _ _ (by omega) (by omega), reqBlockLoop_no_spin _ _ _ _ _ _ _ (by omega)⟩
+
+/-- **C13 (RequestHeaders / RequestTxs never retry on a quiescent view).** `ErrBusy` cannot come
+    back from a node that just passed `nextNode` (same mutex, constant view); `ErrChannelClosed`
+    only from a node whose `Stop` has been called and whose `run()` has not yet cleared `isReady`.
+    If no ready, running node is in that window the loops run exactly one round, whatever fuel ≥ 1.
+    (Inside the window the real loop spins under the manager's mutex until `run()` clears
+    `isReady`; the model's `Err.spin`.) -/
+theorem C13_requestHeaders_single_round (fl : View) (locOk : Bool) (k : Nat) (nodes : List Nat) (off : Nat)
+    (hopen : ∀ id ∈ nodes, selectable fl allData id = true → (fl id).sendOk = true) :
+    reqHeadersLoop fl locOk (k + 1) nodes off = reqHeadersLoop fl locOk 1 nodes off ∧
+    (reqHeadersLoop fl locOk (k + 1) nodes off).err ≠ .spin := by
+  rw [reqHeadersLoop, reqHeadersLoop]
+  rcases hnx : nextNode fl allData nodes off with ⟨nodes', off', sel⟩
+  cases sel with
+  | none => simp
+  | some id =>
+    have hsel := nextNode_selected fl allData nodes off id (by rw [hnx])
+    have hf := selectable_flags hsel.1
+    have hso := hopen id hsel.2.1 hsel.1
+    simp only []
+    have : nodeRequestHeaders (fl id) locOk = .ok ∨ nodeRequestHeaders (fl id) locOk = .other := by
+      unfold nodeRequestHeaders; rw [hf.2.2.1, hso]; cases locOk <;> simp
+    rcases this with h | h <;> rw [h] <;> simp
+
+theorem C13_requestTxs_single_round (fl : View) (k : Nat) (nodes : List Nat) (off : Nat) (pend : List TxEntry)
+    (hopen : ∀ id ∈ nodes, selectable fl allData id = true → (fl id).sendOk = true) :
+    (reqTxsLoop fl (k + 1) nodes off pend).r.err ≠ .spin ∧
+    (reqTxsLoop fl (k + 1) nodes off pend).r.sends = (reqTxsLoop fl 1 nodes off pend).r.sends := by
+  rw [reqTxsLoop, reqTxsLoop]
+  rcases hnx : nextNode fl allData nodes off with ⟨nodes', off', sel⟩
+  cases sel with
+  | none => simp
+  | some id =>
+    have hsel := nextNode_selected fl allData nodes off id (by rw [hnx])
+    have hso := hopen id hsel.2.1 hsel.1
+    simp only []
+    split
+    · simp
+    · have : nodeRequestTxs (fl id) = .ok := by unfold nodeRequestTxs; rw [hso]; simp
+      rw [this]; simp
+
+/-- **HasBlock.** `HasBlock(hash, height)` answers true only for a node that has announced a
+    header (`lastHeaderHash` set) which is the block itself or a header of our chain at least as
+    high, and never for the block that was last requested from that node. -/
+theorem C13_hasBlock_sound (heightOf : Nat → Option Nat) (lastReq lastHdr : Option Nat) (b height : Nat)
+    (h : hasBlock heightOf lastReq lastHdr b height = true) :
+    lastReq ≠ some b ∧ ∃ l, lastHdr = some l ∧ (l = b ∨ ∃ lh, heightOf l = some lh ∧ height ≤ lh) := by
+  unfold hasBlock at h
+  split at h
+  · simp at h
+  · rename_i hreq
+    refine ⟨hreq, ?_⟩
+    split at h
+    · simp at h
+    · rename_i l
+      refine ⟨l, rfl, ?_⟩
+      split at h
+      · rename_i hl; exact Or.inl hl
+      · split at h
+        · simp at h
+        · rename_i lh hlh
+          exact Or.inr ⟨lh, hlh, by simpa using h⟩
+
+/-! ### non-vacuity -/
+
+namespace Example
+
+def F (ready busy stopped : Bool) (sendOk : Bool := true) : Flags := { ready, busy, stopped, sendOk }
+
+/-- node 0 stopped, 1 unverified (not ready), 2 ready but busy, 3 ready and idle, 4 ready and idle. -/
+def view : View := fun i =>
+  [F false false true, F false false false, F true true false, F true false false, F true false false].getD i (F false false true)
+
+/-- the scan from offset 1 skips the unready and the busy node and selects node 3; the stopped node 0 stays
+    (not scanned); the next call starts behind node 3 and selects node 4; the third call wraps, removes the
+    stopped node 0 on its way and selects node 3 again (round robin over the two available nodes). -/
+example : nextNode view allData [0, 1, 2, 3, 4] 1 = ([0, 1, 2, 3, 4], 4, some 3) := by decide
+example : nextNode view allData [0, 1, 2, 3, 4] 4 = ([0, 1, 2, 3, 4], 5, some 4) := by decide
+example : nextNode view allData [0, 1, 2, 3, 4] 5 = ([1, 2, 3, 4], 3, some 3) := by decide
+
+/-- nothing available: every stopped node is removed, the offset ends at the length. -/
+example : nextNode view allData [0, 1, 0, 2] 3 = ([1, 2], 2, none) := by decide
+
+/-- an offset beyond the end (left by `Clean`) wraps. -/
+example : nextNode view allData [1, 3] 7 = ([1, 3], 2, some 3) := by decide
+
+/-- the hypotheses of `C13_available_node_is_found` and of `C13_selected_implies_ready` hold here. -/
+example : selectable view allData 3 = true ∧ 3 ∈ [0, 1, 2, 3, 4] := by decide
+
+/-- RequestBlock with a data predicate: node 3 lacks the block, node 4 has it. -/
+example : ((reqBlock view (fun i => i == 4) 7 (some 107) [0, 1, 2, 3, 4] 0).sends,
+           (reqBlock view (fun i => i == 4) 7 (some 107) [0, 1, 2, 3, 4] 0).nodes,
+           (reqBlock view (fun i => i == 4) 7 (some 107) [0, 1, 2, 3, 4] 0).off) =
+    ([(4, Msg.getdataBlock 7)], [1, 2, 3, 4], 4) := by decide
+
+/-- the retry on ErrChannelClosed: node 3's channel is closed (its `Stop` ran, `isReady` not yet cleared):
+    RequestHeaders moves on to node 4; RequestBlock stamps node 3 and moves on; with node 3 alone
+    RequestHeaders spins (the model's explicit outcome), RequestBlock ends with "not available". -/
+def viewClosing : View := fun i => if i = 3 then F true false false false else view i
+
+example : (reqHeadersLoop viewClosing true 5 [1, 2, 3, 4] 0).sends = [(4, Msg.getheaders)] := by decide
+example : ((reqBlock viewClosing allData 2 (some 102) [1, 2, 3, 4] 0).sends,
+           (reqBlock viewClosing allData 2 (some 102) [1, 2, 3, 4] 0).tried) = ([(4, Msg.getdataBlock 2)], [3, 4]) := by decide
+example : (reqHeadersLoop viewClosing true 9 [1, 3] 0).err = .spin := by decide
+example : (reqBlock viewClosing allData 2 (some 102) [1, 3] 0).err = .notAvail := by decide
+
+/-- SendTx reaches exactly the ready idle nodes. -/
+example : sendTx view [0, 1, 2, 3, 4] = [(3, Msg.tx), (4, Msg.tx)] := by decide
+
+/-- RequestTxs: node 3 announced tx 8 and 9 while they were being requested elsewhere; it is asked for
+    them, and a second call (nothing ripe any more for node 4) sends nothing. -/
+example : (reqTxs view true 3 [1, 2, 3, 4] 0 [⟨8, [3, 4], true⟩, ⟨9, [3], true⟩, ⟨5, [4], false⟩]).r.sends
+    = [(3, Msg.getdataTx [8, 9])] := by decide
+
+/-- HasBlock: announced the block itself; announced a higher header of our chain; announced an unknown
+    header; never announced; the block was already requested from this node. -/
+example : hasBlock heightOf none (some 7) 7 107 = true ∧ hasBlock heightOf none (some 8) 7 107 = true ∧
+    hasBlock heightOf none (some 20) 7 107 = false ∧ hasBlock heightOf none none 7 107 = false ∧
+    hasBlock heightOf (some 7) (some 8) 7 107 = false ∧ hasBlock heightOf none (some 6) 7 107 = false := by decide
+
+end Example
+
+end BRV.Mgr
